@@ -46,6 +46,9 @@ type c20Case struct {
 	RecvBlocked bool `json:",omitempty"`
 	// BadRecv: s2c on response-streaming kinds: the client's first RecvMsg fails (wrong message type)
 	BadRecv bool `json:",omitempty"`
+	// TrailerPoll: s2c on response-streaming kinds: at every quiescent point the client also asks for Trailer() (a
+	// logging wrapper, a poll for completion): that call takes nothing out of the stream
+	TrailerPoll bool `json:",omitempty"`
 }
 
 type c20Obs struct {
@@ -337,6 +340,10 @@ func propC20(c c20Case) *Outcome {
 	ok := true
 	for k := 0; k <= len(c.Recvs) && ok && obs.Fault == ""; k++ {
 		waitQuiescent(&senderGID, &senderFinished)
+		if c.TrailerPoll && didRecv {
+			cs.Trailer()
+			waitQuiescent(&senderGID, &senderFinished)
+		}
 		ok = observe(fmt.Sprintf("quiescent point %d", k))
 		if !ok || k == len(c.Recvs) {
 			break
@@ -423,6 +430,12 @@ func genC20(t *rapid.T) c20Case {
 	if c.Dir == "c2s" && c.Kind == kBidi {
 		c.Pending = rapid.SampledFrom([]string{"", "", "header", "message", "helper"}).Draw(t, "pending")
 	}
+	if c.Dir == "c2s" && c.Kind == kClientStream && rapid.IntRange(0, 2).Draw(t, "earlyanswer") == 0 {
+		// the handler of a single-response method answers early (acknowledges or rejects the upload after the first
+		// chunk) and stays alive without receiving: the client's sends are held back as before
+		c.Pending = "message"
+	}
+	c.TrailerPoll = c.Dir == "s2c" && serverStreaming(c.Kind) && rapid.IntRange(0, 2).Draw(t, "trailerpoll") == 0
 	if thorough() && rapid.IntRange(0, 9).Draw(t, "heap") == 0 {
 		c.Heap, c.Size, c.N = true, 1<<20, 48
 	}
